@@ -189,7 +189,7 @@ def compare_rows(full_dump, red_dump, nold_full, nold_red, K, full_in, scale, ma
 def zscale(db):
     return float(max([abs(v) for c in db.cols if c[0] == Z for v in c[2] if v is not None] + [1]))
 
-def run_kriging(ctx, exe, ncase, found):
+def run_kriging(ctx, exe, runner, ncase, found):
     rng = ctx.rng
     B = Batch(ctx, exe, 'krig'); plan = []
     kinds = ['selection', 'NA-value', 'undefined-coordinate', 'undefined-fext', 'selection-NA', 'full-selection', 'empty-selection', 'masked-target', 'mixed']
@@ -228,7 +228,7 @@ def run_kriging(ctx, exe, ncase, found):
         plan.append({'kind': kind, 'masks': masks, 'full': full, 'fout': fout, 'K': K, 'KT': KT, 't': (t_full, t_red, t_cr), 'neigh': 'moving' if moving else 'unique',
                      'hdr': hdr, 'tail': tail, 'nvar': nvar, 'scale': zscale(base), 'base': base, 'out': out})
     B.run()
-    deferred = []
+    deferred = []; titems = []
     def emit(p, msgs, rep):
         algo = 'kriging-' + p['neigh']
         for sk, m_ in msgs:
@@ -271,6 +271,8 @@ def run_kriging(ctx, exe, ncase, found):
             if rc[0] != rr[0]: msgs.append(('createReduce', 'status %d on Db::createReduce copies, %d on the directly reduced Dbs' % (rc[0], rr[0])))
             else:
                 for (sk, m_) in compare_rows(rc[1], rr[1], nold, nold, list(range(len(p['KT']))), p['fout'].sub(p['KT']), p['scale'], untouched=False): msgs.append(('createReduce', m_))
+        if not msgs and rr is not None and rf[0] == 0 and rr[0] == 0:
+            titems.append((targets_model_case(4, p['fout'], p['KT'], new_columns(rr[1], nold)[2], nold), rf[1], p['scale'], sxfull))
         if msgs and len([m_ for m_ in p['masks'] if m_.get('on') != 'dbout']) > 1: deferred.append((p, msgs, rep)); continue
         emit(p, msgs, rep)
         if not msgs: ctx.sample({'algo': algo, 'kind': p['kind'], 'n': p['full'].n, 'kept': len(p['K']), 'targets_kept': len(p['KT'])}, 6)
@@ -291,6 +293,7 @@ def run_kriging(ctx, exe, ncase, found):
                 if a == 'crash' or b == 'crash' or a[0] != b[0] or compare_rows(a[1], b[1], nold, nold, p['KT'], p['fout'], p['scale'], sq_cols=range(p['nvar'], 2 * p['nvar'])):
                     p['culprit'] = [m_['kind']]; rep = dict(rep); rep['shrunk_to'] = {'mask': m_, 'with_masks': sx_str(B2.cases[t1]), 'reduced': sx_str(B2.cases[t2])}; break
             emit(p, msgs, rep)
+    check_targets_model(ctx, runner, 'targets_kriging', titems)
     return B, plan
 
 KIND_ALIAS = {'undefined-first-coordinate': 'undefined-coordinate', 'undefined-other-coordinate': 'undefined-coordinate'}
@@ -346,7 +349,7 @@ def run_vario(ctx, exe, ncase, found):
         ndim = rng.choice([1, 2, 2]); nvar = rng.choice([1, 1, 2]); kind = kinds[ic % len(kinds)]
         if kind == 'NA-one-variable': nvar = 2
         if kind == 'undefined-other-coordinate' and ndim == 1: ndim = 2
-        calc = rng.choice([0, 0, 0, 1, 9])
+        calc = rng.choice([0, 0, 0, 1, 9, 5]) if kind not in ('zero-weight',) else rng.choice([0, 0, 1, 9])   # 5 = Poisson (not with zero weights: -mean/2 per pair)
         n = rng.randint(8, 22)
         base = gen_points(rng, ndim, nvar, n, 0)
         dirs = [[rng.randint(3, 6), dy(rng.choice([2, 3, 4])), dy(Fraction(1, 2)), dy(90), [dy(1)] + [dy(0)] * (ndim - 1)]]
@@ -395,6 +398,10 @@ def run_vario(ctx, exe, ncase, found):
             if a[0] != b[0]: return [('status', 'computeFromDb %s with the masked samples present and %s on %s' % ('succeeds' if a[0] else 'fails', 'succeeds' if b[0] else 'fails', what))]
             if not a[0]: return []
             out = []
+            for k, (x, y) in enumerate(zip(a[1], b[1])):     # global means Vario::getMeans() (consumed by the Poisson estimator only)
+                if not close(undy(x), undy(y), p['scale'] ** .5):
+                    out.append(('mean', 'global mean [%d]: %s with the masked samples present, %s on %s' % (k, fl(undy(x)), fl(undy(y)), what))); break
+            if out and p['calc'] == 5: return out            # the Poisson cells then differ as a consequence
             for idir, (da, dbb) in enumerate(zip(a[3], b[3])):
                 for ib, (ba, bb) in enumerate(zip(da, dbb)):
                     for name, va, vb in zip(('sw', 'hh', 'gg'), ba, bb):
@@ -432,10 +439,36 @@ def run_vario(ctx, exe, ncase, found):
             ctx.violation(key, m_, rep); found[0] = True
 
 def rows_of(db, cols_idx, hasW=True):
-    sel = db.col(SEL); w = db.col(W); out = []
+    sel = db.col(SEL); w = db.col(W); out = []; nd = db.ncol(X)
     for i in range(db.n):
-        out.append([dy(sel[i]) if sel is not None else [], dy(w[i]) if w is not None else [], [dy(db.cols[k][2][i]) for k in cols_idx], []])
+        out.append([dy(sel[i]) if sel is not None else [], dy(w[i]) if w is not None else [], [dy(db.col(X, d)[i]) for d in range(nd)],
+                    [dy(db.cols[k][2][i]) for k in cols_idx], []])
     return out
+
+def targets_model_case(op, fout, KT, red_new, nold):
+    """case for the Coq target loop (run_targets = op 4, run_simu_targets = op 7): the pre-existing cells of every target, its active
+    flag, and as results the values obtained on the reduced output Db"""
+    act = fout.active(); pos = {i: a for a, i in enumerate(KT)}
+    ests = [[dy(c[2][pos[i]]) for c in red_new] if i in pos else [] for i in range(fout.n)]
+    rows = [[act[i], [dy(c[2][i]) for c in fout.cols]] for i in range(fout.n)]
+    return [op, nold, len(red_new), ests, rows]
+
+def check_targets_model(ctx, runner, name, items):
+    """items: (model case, full dump, scale, replay).  The table computed by the model (pre-existing cells, NA at masked targets, the
+    reduced-Db results at active ones) must be the table the implementation returns on the Db with masks."""
+    if not items: return
+    mf = write_cases(ctx, name, [it[0] for it in items])
+    rcm, model = run_model(ctx, runner, mf)
+    if len(model) != len(items): print('ERROR: model runner returned %d results for %d cases' % (len(model), len(items))); sys.exit(3)
+    for (mc, dump, scale, rep), mo in zip(items, model):
+        if mo and mo[0] == -999: print('ERROR: model rejected a target-loop case'); sys.exit(3)
+        n, cols = parse_dump(dump)
+        for i, (a, cells) in enumerate(mo):
+            impl = [c[2][i] for c in cols]; mod = [unq(x) for x in cells]
+            if len(impl) != len(mod) or any(not close(x, y, scale) for x, y in zip(impl, mod)):
+                ctx.violation('model-drift:targets', '%s: target %d: impl row %s, model row %s' % (name, i, [fl(x) for x in impl], [fl(x) for x in mod]),
+                              {'model_case': sx_str(mc), 'replay': rep}, found_input=False); break
+        ctx.count(sx_str(mc)[:2000])
 
 def run_stats(ctx, exe, runner, ncase, found):
     rng = ctx.rng
@@ -620,45 +653,44 @@ def run_matrices(ctx, exe, ncase, found):
         ctx.count(repd['with_masks'][:3000], len(p['K']) < p['full'].n)
 
 def run_ranks(ctx, exe, runner, ncase, found):
-    """Db::getMultipleRanksActive / isActive against the Coq model, on arbitrary selection values (0/1, negative, tiny, undefined)"""
+    """Db::getMultipleRanksActive / isActive against the Coq model, on arbitrary selection values (0/1, negative, tiny, undefined),
+    undefined coordinates, with and without useCoord; the reduction statement of theorem C05_ranks_reduce is evaluated by the model"""
     rng = ctx.rng
     B = Batch(ctx, exe, 'ranks'); mcases = []; plan = []
     for ic in range(ncase):
         n = rng.randint(1, 14); nz = rng.choice([0, 1, 2, 2]); nv = rng.choice([0, 0, nz]) if nz else 0
-        db = PDb(n); db.add(X, 0, [Fraction(i) for i in range(n)])
+        db = PDb(n); nd = rng.choice([1, 2])
+        for d in range(nd): db.add(X, d, [None if rng.random() < .2 else Fraction(rng.randint(-9, 9)) for i in range(n)])
         for v in range(nz): db.add(Z, v, [rng.choice([None, Fraction(rng.randint(-9, 9))]) if rng.random() < .4 else Fraction(rng.randint(-9, 9)) for _ in range(n)])
         for v in range(nv): db.add(V, v, [rng.choice([None, Fraction(-1), Fraction(0), Fraction(1, 2), Fraction(2)]) for _ in range(n)])
         hasSel = rng.random() < .8
-        weird = rng.random() < .4
+        weird = rng.random() < .5
         if hasSel: db.add(SEL, 0, [rng.choice([Fraction(0), Fraction(1), Fraction(1)] + ([None, Fraction(-1), Fraction(2), Fraction(1, 2 ** 40), Fraction(-1, 2 ** 40)] if weird else [])) for _ in range(n)])
         ivars = rng.choice([[], [0], list(range(nz)), [nz - 1] if nz else []])
         ivars = [v for v in ivars if v < max(nz, 1)] if nz else []
         nbgh = [] if rng.random() < .7 else sorted(rng.sample(range(n), rng.randint(1, n)))
-        useSel = rng.random() < .8; useVerr = rng.random() < .5
-        t = B.add([8, db.sx(), ivars, nbgh, useSel, useVerr])
+        useSel = rng.random() < .8; useVerr = rng.random() < .5; useCoord = rng.random() < .5
+        t = B.add([8, db.sx(), ivars, nbgh, useSel, useVerr, useCoord])
         rows = []
         for i in range(n):
-            rows.append([dy(db.col(SEL)[i]) if hasSel else [], [], [dy(db.col(Z, v)[i]) for v in range(nz)], [dy(db.col(V, v)[i]) for v in range(nv)]])
-        mcases.append([3, hasSel, nz, nv, ivars, nbgh, useSel, useVerr, rows])
+            rows.append([dy(db.col(SEL)[i]) if hasSel else [], [], [dy(db.col(X, d)[i]) for d in range(nd)], [dy(db.col(Z, v)[i]) for v in range(nz)], [dy(db.col(V, v)[i]) for v in range(nv)]])
+        mcases.append([3, hasSel, nz, nv, ivars, nbgh, useSel, useVerr, useCoord, rows])
         plan.append((t, weird, db))
     B.run()
     mf = write_cases(ctx, 'ranks_model', mcases)
     rcm, model = run_model(ctx, runner, mf)
     if len(model) != len(mcases): print('ERROR: model runner returned %d results for %d cases' % (len(model), len(mcases))); sys.exit(3)
-    nref = 0
     for (t, weird, db), mo, mc in zip(plan, model, mcases):
-        r = B.get(t); ctx.dist('ranks:' + ('arbitrary-selection-values' if weird else 'selection-0/1'))
+        r = B.get(t); ctx.dist('ranks:' + ('arbitrary-selection-values' if weird else 'selection-0/1') + (':useCoord' if mc[8] else ''))
         if r == 'crash': ctx.violation('ranks:crash', 'harness crashed', {'case': sx_str(B.cases[t])}); found[0] = True; continue
         ctx.count(sx_str(mc)[:2000])
         if mo and mo[0] == -999: print('ERROR: model rejected a ranks case'); sys.exit(3)
         if [list(x) for x in r[0]] != [list(x) for x in mo[0]] or list(r[1]) != list(mo[1]) or r[2] != sum(mo[1]):
             ctx.violation('model-drift:getRanksActive', 'impl index %s active %s count %d; model index %s active %s' % (r[0], r[1], r[2], mo[0], mo[1]),
                           {'impl_case': sx_str(B.cases[t]), 'model_case': sx_str(mc)}, found_input=False)
-        # the reduction statement evaluated by the model (theorem C05_ranks_reduce, premise sel_wf) when nbgh is empty and useSel
-        if mc[5] == [] and mc[6] and not weird and [list(x) for x in mo[0]] != [list(x) for x in mo[3]]:
-            ctx.violation('model-drift:ranks-reduce', 'model: ranks differ from renamed ranks of the reduced table on a 0/1 selection', {'model_case': sx_str(mc)}, found_input=False)
-        if weird and mc[5] == [] and mc[6] and [list(x) for x in mo[0]] != [list(x) for x in mo[3]]: nref += 1
-    ctx.cov['ranks_reduce_counterexamples_seen_with_arbitrary_selection_values'] = nref
+        # the reduction statement evaluated by the model (theorem C05_ranks_reduce: no premise on the selection values) when nbgh is empty and useSel
+        if mc[5] == [] and mc[6] and [list(x) for x in mo[0]] != [list(x) for x in mo[3]]:
+            ctx.violation('model-drift:ranks-reduce', 'model: ranks differ from the renamed ranks of the reduced table (theorem C05_ranks_reduce contradicted?)', {'model_case': sx_str(mc)}, found_input=False)
 
 # ----------------------------------------------------------------------------- kreduce (Coq) against the physically reduced Db (impl)
 def c01_db(db):
@@ -737,12 +769,13 @@ def run_kreduce_model(ctx, runner, ncase, found):
                 if a is None or abs(float(a) - float(b)) > 1e-6 * (zs + abs(float(b))):
                     ctx.dist('kreduce-correspondence:estimate-differs-beyond-1e-6 (ill-conditioned or C01 matter)')
 
-def run_simtub(ctx, exe, ncase, found):
+def run_simtub(ctx, exe, runner, ncase, found):
     rng = ctx.rng
     B = Batch(ctx, exe, 'simtub'); plan = []
     kinds = ['selection', 'NA-value', 'masked-target', 'undefined-coordinate']
-    # the undefined-coordinate witness costs one to two minutes (see below): thorough tier only
-    for ic in range(ncase + (0 if ctx.quick() else 1)):
+    # the last case is the undefined-coordinate witness (fast since the bands are sized on the usable samples only; if that
+    # correction is lost it costs one to two minutes and ends in an error or a crash)
+    for ic in range(ncase + 1):
         ndim = rng.choice([1, 2]); kind = kinds[ic % 3] if ic < ncase else 'undefined-coordinate'; n = rng.randint(6, 12); m = 6
         base = gen_points(rng, ndim, 1, n, 0); out = gen_points(rng, ndim, 0, m, 0, keepcol=True)
         model = simple_model(rng, ndim, 1, rng.choice([-1, 0]), simu=True)
@@ -754,13 +787,13 @@ def run_simtub(ctx, exe, ncase, found):
         tail = [model_sx(model), neigh, 2, 1234 + ic, 30]
         if not K or not KT: continue
         if kind == 'undefined-coordinate':
-            # an undefined data coordinate makes the band generation run for about a minute per 30 bands before failing
-            # (or crashing): one small witness, in a process of its own
-            tail = [model_sx(model), neigh, 1, 1234 + ic, 1]; BB = Batch(ctx, exe, 'simtub_nacoord')
+            # before the correction an undefined data coordinate made the band generation run for about a minute per 30 bands
+            # before failing (or crashing): small witness, in a process of its own
+            tail = [model_sx(model), neigh, 1, 1234 + ic, 2]; BB = Batch(ctx, exe, 'simtub_nacoord')
         else: BB = B
         t1 = BB.add([7, ndim, 1, full.sx(), fout.sx()] + tail); t2 = BB.add([7, ndim, 1, full.sub(K).sx(), fout.sub(KT).sx()] + tail)
         plan.append({'kind': kind, 'masks': masks, 'full': full, 'fout': fout, 'K': K, 'KT': KT, 't': (t1, t2), 'scale': zscale(base), 'neigh': 'moving' if neigh[0] else 'unique', 'B': BB})
-    B.run()
+    B.run(); titems = []
     for p in plan:
         if p['B'] is not B: p['B'].run()
     for p in plan:
@@ -778,6 +811,8 @@ def run_simtub(ctx, exe, ncase, found):
                 for i in range(n):
                     if not act[i] and c[2][i] is not None: msgs.append(('masked-target-written', 'masked target %d received %s in simulation %d' % (i, fl(c[2][i]), j))); break
         for sk, m_ in msgs: ctx.violation(algo + ':' + classify(p, 'value' if sk == 'status' else sk), m_, rep); found[0] = True
+        if not msgs and rf[0] == 0: titems.append((targets_model_case(7, p['fout'], p['KT'], new_columns(rr[1], nold)[2], nold), rf[1], p['scale'], rep['with_masks']))
+    check_targets_model(ctx, runner, 'targets_simtub', titems)
 
 # ----------------------------------------------------------------------------- corpus
 def run_corpus(ctx, exe, found):
@@ -819,14 +854,14 @@ def run(ctx):
         ctx.log('section', name)
         return only is None or name in only
     if want('corpus'): run_corpus(ctx, exe, found)
-    if want('kriging'): run_kriging(ctx, exe, 90 if q else 900, found)
+    if want('kriging'): run_kriging(ctx, exe, runner, 90 if q else 900, found)
     if want('xvalid'): run_xvalid(ctx, exe, 40 if q else 400, found)
     if want('vario'): run_vario(ctx, exe, 80 if q else 800, found)
     if want('stats'): run_stats(ctx, exe, runner, 64 if q else 640, found)
     if want('matrices'): run_matrices(ctx, exe, 64 if q else 640, found)
     if want('ranks'): run_ranks(ctx, exe, runner, 120 if q else 1500, found)
     if want('kreduce'): run_kreduce_model(ctx, runner, 30 if q else 300, found)
-    if want('simtub'): run_simtub(ctx, exe, 16 if q else 120, found)
+    if want('simtub'): run_simtub(ctx, exe, runner, 16 if q else 120, found)
     if only is not None: ctx.notes.append('partial run: C05_ONLY=%s' % ','.join(only))
     ctx.cov['rule'] = ('case = (algorithm, Db, kind of masking): kriging / xvalid (unique and moving neighbourhoods, SK/OK/UK, 1-2 variables, heterotopic), '
                        'experimental variograms (1-2 variables, 1-2 directions, variogram / covariance), statistics (Mono, Multi, Correl, variance matrix, per-sample), '
@@ -835,7 +870,7 @@ def run(ctx):
                        'each case is run on the Db with the masks and on the physically reduced Db (directly built and, for selections, through Db::createReduce); '
                        'distinct = distinct case text; non-trivial = at least one sample or target is actually removed')
     if not proofs_ok: proof_break_violation(ctx, found[0])
-    ctx.assumptions = ['selection columns hold 0/1 (the theorems on rank lists carry the premise sel_wf; its failure is theorem C05_ranks_reduce_refuted, replayed as covmat:selection-NA)',
+    ctx.assumptions = ['samples without coordinates (or external drift, for the neighbourhood) enter the models of C06 and C12, whose coordinates are total, as masked samples (nembed / vembed): the corrected code discards them where it discards masked ones; the replays are the tie',
                        'the reduction theorems are stated on the models of C01 (kriging system), C06 (moving neighbourhood) and C12 (variogram pair loops), tied to the code by those checks\' correspondences; '
                        'the definition of the reduced kriging case (kreduce) is itself compared on every run with the case built by the implementation from the physically reduced Db',
                        'comparisons between the two runs of the implementation: |a-b| <= 1e-9 (scale + |b|)',
@@ -843,7 +878,7 @@ def run(ctx):
                        'an undefined WEIGHT is documented by Db::getWeight as weight 1: checked as such (not as a masked sample); zero weights are checked against removal for the variogram and covariance estimators']
     ctx.notes.append('not covered: grid variograms, Poisson / covariogram estimators with zero weights, block / Bayesian / image kriging, kriging with collocated variables, '
                      'simulations other than turning bands, statistics on grids (dbStatisticsPerCell...), Optim covariance paths beyond evalCovMatrix*Optim; '
-                     'the simtub witness with an undefined data coordinate runs in the thorough tier only (one to two minutes)')
+                     'the global mean used by the Poisson variogram estimator (Vario::_getStatistics, first loop) still counts samples without coordinates (not exercised)')
 
 def run_checked(ctx):
     run(ctx)
